@@ -36,6 +36,10 @@ __all__ = ['ServerAuthError', 'AuthSession']
 noarg_pattern = re.compile(br'^([a-zA-Z0-9_-]+)$')
 witharg_pattern = re.compile(br'^([a-zA-Z0-9_-]+)\s+(.+)$')
 
+#: Mechanisms that send the secret in clear text, for versions of pysasl whose
+#: mechanism objects have no ``insecure`` attribute.
+insecure_mechanisms = (b'PLAIN', b'LOGIN')
+
 
 class ServerAuthError(SmtpError):
 
@@ -130,7 +134,8 @@ class AuthSession(object):
         mechanism_name, mechanism_arg = self._parse_arg(arg)
         mechanism = self.auth.get_server(mechanism_name)
         if mechanism:
-            insecure = getattr(mechanism, 'insecure', False)
+            insecure = getattr(mechanism, 'insecure',
+                               mechanism.name in insecure_mechanisms)
             if insecure and not self.io.encrypted:
                 raise InsecureMechanismError()
             responses = []
